@@ -50,7 +50,7 @@ def scenario(args):
     import random
     rng = random.Random(f"C13/{seed}")
     kind = rng.choice(["blackout-long", "blackout-long", "blackout-short", "revoke", "revoke-early", "idle", "idle-consent", "loss",
-                       "blackout-at-ready"])
+                       "blackout-at-ready", "other-stream-removed"])
     consent = 0 if kind == "idle" else 1
     s = None
     bad = []
@@ -76,6 +76,40 @@ def scenario(args):
             # no crash is the claim; additionally: every authenticated request the revoker got afterwards is answered 403
             bad += check_403_after_revoke(s, rev)
             bad += probe_after_revoke(s, rng, rev)
+            return dict(seed=seed, kind=kind, bad=bad, script=s.script, info=info)
+        if kind == "other-stream-removed":
+            # two streams, both READY; long after the checks have finished (the pacing timer has stopped) one agent removes one
+            # stream: the OTHER stream's pair must stay warm — consent checks keep being sent and answered, the component stays
+            # READY and usable for as long as the peer answers
+            for ag in "AB":
+                s.op(f"stream {ag} 1"); s.op(f"attach {ag} 2"); s.op(f"gather {ag} 2")
+            s.op("run 50")
+            for sid in (1, 2):
+                sc.deliver_signalling(s, rng, sc.signalling_steps(rng, dict(cfg, ncomp=1), sid=sid))
+            s.op("runidle 30000")
+            ok_ready = all(simlib.parse_q(s.op(f"q {ag} {sid} 1")[1])["state"] == "READY" for ag in "AB" for sid in (1, 2))
+            if not ok_ready:
+                return dict(seed=seed, kind=kind, bad=[("setup", "two-stream session did not reach READY")], script=s.script, info=info)
+            s.op(f"run {rng.choice([6000, 9000, 20000])}")
+            who, gone = rng.choice("AB"), rng.choice([1, 2])
+            keep = 3 - gone
+            s.op(f"rmstream {who} {gone}")
+            t0 = now_ms(s)
+            s.op("run 60000")
+            tfail = first_state(s, who, "FAILED", after=t0)
+            q = simlib.parse_q(s.op(f"q {who} {keep} 1")[1])
+            if tfail is not None or q["state"] != "READY":
+                bad.append(("not-kept-warm", f"agent {who} removed stream {gone} at t={t0}; its stream {keep} (peer still answering) was "
+                                             f"announced FAILED at {tfail} / is {q['state']} 60 s later"))
+            st = s.op(f"send {who} {keep} 1 aabb")[1]
+            if "err" in st:
+                bad.append(("not-kept-warm", f"send on the surviving stream {keep} of {who} fails 60 s after stream {gone} was removed: {st}"))
+            # the surviving pair is never left silent for longer than the consent-check period (about 5 s, at most 6 s + slack)
+            txs = [int(m.group(1)) for e in s.events() for m in [EV_TX.match(e)] if m and m.group(2) == who and int(m.group(1)) >= t0]
+            gaps = [b - a for a, b in zip([t0] + txs, txs + [t0 + 60000])]
+            if gaps and max(gaps) > 8000:
+                bad.append(("silent-pair", f"agent {who} sent nothing for {max(gaps)} ms on its surviving stream after removing stream {gone}"))
+            info.update(who=who, gone=gone)
             return dict(seed=seed, kind=kind, bad=bad, script=s.script, info=info)
         steps = sc.signalling_steps(rng, cfg)
         sc.deliver_signalling(s, rng, steps)
